@@ -49,6 +49,11 @@ let () =
   register "alg_add" (fun a -> pure (trats (alg_add (qp (arg a 1)) (qp (arg a 2)))));
   register "alg_sub" (fun a -> pure (trats (alg_sub (qp (arg a 1)) (qp (arg a 2)))));
   register "alg_mul" (fun a -> out trats (alg_mul (zp (arg a 0)) (qp (arg a 1)) (qp (arg a 2))));
+  register "alg_add_owned" (fun a -> pure (trats (alg_add (qp (arg a 1)) (qp (arg a 2)))));
+  register "alg_sub_owned" (fun a -> pure (trats (alg_sub (qp (arg a 1)) (qp (arg a 2)))));
+  register "alg_mul_owned" (fun a -> out trats (alg_mul (zp (arg a 0)) (qp (arg a 1)) (qp (arg a 2))));
+  (* derived PartialEq on the stored representative (the model stores canonical coefficient lists) *)
+  register "alg_eq" (fun a -> pure (tbool (qp (arg a 1) = qp (arg a 2))));
   register "alg_pow" (fun a -> out trats (alg_pow (zp (arg a 0)) (qp (arg a 1)) (int_ (arg a 2))));
   register "alg_pow_u64" (fun a -> out trats (alg_pow (zp (arg a 0)) (qp (arg a 1)) (int_ (arg a 2))));
   register "alg_theta_pow" (fun a -> out trats (alg_pow (zp (arg a 0)) (alg_new (zp (arg a 0))) (int_ (arg a 1))));
